@@ -180,6 +180,7 @@ TARGETS = [
     dict(name="x25519-invert", ladder=True, params=[{}]),
     dict(name="x25519-ladder-bounds", ladder=True, params=[{}]),
     dict(name="sc25519-invert", ladder=True, params=[{}]),
+    dict(name="ed25519-scalarmult-alg", scalarmult=True, params=[{"op": "scalarmult_base"}, {"op": "scalarmult"}, {"op": "base_table"}]),
     dict(name="edwards-group-ops", edwards=True, params=[{"op": c} for c in ("add_cached", "sub_cached", "add_precomp", "sub_precomp", "p2_dbl", "p3_dbl", "p1p1_to_p3",
                                                                               "p1p1_to_p2", "p3_to_cached", "p3_to_p2", "p3_0")]),
     dict(name="fe25519-51-x25519", units=["crypto_scalarmult/curve25519/ref10/x25519_ref10.c", "sodium/utils.c"], cflags=["-fno-inline-functions"], run=fe51_op,
@@ -249,6 +250,14 @@ def run_one(tname, pidx, workroot):
     p = t["params"][pidx]
     res = {"target": tname, "params": p, "status": "inconclusive", "detail": "", "wall_s": 0.0}
     t0 = time.time()
+    if t.get("scalarmult"):
+        from . import scalarmult
+        r = scalarmult.run(p["op"], workroot)
+        r["params"] = p
+        r["claim"] = {"scalarmult_base": "ge25519_scalarmult_base(a) == a * B for all a < 2^255 (radix-16 signed recoding, table look-ups, doublings; abstract multiples)",
+                      "scalarmult": "ge25519_scalarmult(a, P) == a * P for all a < 2^255 (table of 1..8 P built by the code, recoding, doublings)",
+                      "base_table": "base[i][j] == (j+1) * 256^i * B for all 256 precomputed entries (big-integer Edwards arithmetic)"}[p["op"]]
+        return r
     if t.get("edwards"):
         from . import edwards
         r = edwards.run(p["op"], workroot)
@@ -322,6 +331,11 @@ def run_one(tname, pidx, workroot):
 
 def replay(tname, pidx, workroot, assign_path):
     t = [x for x in TARGETS if x["name"] == tname][0]
+    if t.get("scalarmult"):
+        from . import scalarmult
+        r = scalarmult.run(t["params"][pidx]["op"], workroot)
+        print(("REPLAY-FAIL: " if r["status"] == "violation" else "REPLAY-END-REACHED: ") + (r["detail"] or r["status"]))
+        return 1 if r["status"] == "violation" else 0
     if t.get("edwards"):
         from . import edwards
         r = edwards.run(t["params"][pidx]["op"], workroot)
